@@ -16,6 +16,7 @@ From Coq.Strings Require Import Byte String.
 From TS Require Import Bytes State Prog Ops Interp SigSpec MultisigPure MultisigLink BuilderSpec TapeSteps
   Builders BuilderSpecC13 BuilderSpecC13b TablesCheck.
 From TS Require BuilderSpecC13c.
+From TS Require BuilderSourcesProofs.
 Import ListNotations.
 Local Open Scope nat_scope.
 
@@ -264,6 +265,35 @@ Print Assumptions C13_graftap_signed_surrogate_runs.
 Print Assumptions C13_graftap_unsigned_surrogate_never_starts.
 Print Assumptions C13_graftap_pair.
 Print Assumptions C13_graftap_example.
+(* ---------- the builders as SOURCE (model/BuilderSources.v mirrors the f-string templates of tools.py token for token — 83 Examples
+   against the real .src / .bytes; proofs/BuilderSourcesProofs.v: the template TEXT compiles, for all arguments, to the bytes of
+   model/Builders.v that the theorems above are about; closed statements printed by Check) ---------- *)
+Definition C13_src_single_sig_lock_compiles := @BuilderSourcesProofs.single_sig_lock_compiles.
+Definition C13_src_single_sig_lock2_compiles := @BuilderSourcesProofs.single_sig_lock2_compiles.
+Definition C13_src_single_sig_lock2_ct_compiles := @BuilderSourcesProofs.single_sig_lock2_ct_compiles.
+Definition C13_src_multisig_lock_compiles := @BuilderSourcesProofs.multisig_lock_compiles.
+Definition C13_src_scripthash_lock_compiles := @BuilderSourcesProofs.scripthash_lock_compiles.
+Definition C13_src_scripthash_lock_ct_compiles := @BuilderSourcesProofs.scripthash_lock_ct_compiles.
+Definition C13_src_graftap_committed_compiles := @BuilderSourcesProofs.graftap_committed_compiles.
+Definition C13_src_single_sig_witness_compiles := @BuilderSourcesProofs.single_sig_witness_compiles.
+Definition C13_src_single_sig_witness2_compiles := @BuilderSourcesProofs.single_sig_witness2_compiles.
+Definition C13_src_scripthash_witness_compiles := @BuilderSourcesProofs.scripthash_witness_compiles.
+Definition C13_src_any_layout := @BuilderSourcesProofs.any_layout.
+Check C13_src_single_sig_lock_compiles.
+Check C13_src_single_sig_lock2_compiles.
+Check C13_src_single_sig_lock2_ct_compiles.
+Print Assumptions C13_src_single_sig_lock_compiles.
+Print Assumptions C13_src_single_sig_lock2_compiles.
+Print Assumptions C13_src_single_sig_lock2_ct_compiles.
+Print Assumptions C13_src_multisig_lock_compiles.
+Print Assumptions C13_src_scripthash_lock_compiles.
+Print Assumptions C13_src_scripthash_lock_ct_compiles.
+Print Assumptions C13_src_graftap_committed_compiles.
+Print Assumptions C13_src_single_sig_witness_compiles.
+Print Assumptions C13_src_single_sig_witness2_compiles.
+Print Assumptions C13_src_scripthash_witness_compiles.
+Print Assumptions C13_src_any_layout.
+
 Print Assumptions C13_single_sig_bytes.
 Print Assumptions C13_single_sig2_bytes.
 Print Assumptions C13_multisig_bytes.
